@@ -125,7 +125,7 @@ def run_d(crate, harness_specs, tier, seed, result):
                 hs_run["id"] = hid
                 out = binary + f".{hid}.json"
                 cmd = [binary, hs["name"], "--threads", str(t.get("threads", NCPU)), "--max-paths", str(t.get("max_paths", 100000)),
-                       "--seed", str(seed + extra_seed), "--split-depth", str(t.get("split_depth", 6)), "--out", out,
+                       "--seed", str(seed + extra_seed), "--split-depth", str(t.get("split_depth", 3)), "--out", out,
                        "--crosscheck-every", str(t.get("crosscheck_every", 211))]
                 run_one_d(cmd, out, hs_run, t, crate, result, features)
     finally:
